@@ -238,6 +238,10 @@ def peval(node: ast.AST, env: Optional[Dict[str, object]] = None, funcs: Optiona
         return v
     if isinstance(node, ast.IfExp):
         return ev(node.body) if ev(node.test) else ev(node.orelse)
+    if isinstance(node, ast.NamedExpr) and isinstance(node.target, ast.Name):
+        v = ev(node.value)
+        env[node.target.id] = v
+        return v
     if isinstance(node, ast.Compare):
         left = ev(node.left)
         for op, rn in zip(node.ops, node.comparators):
@@ -401,7 +405,16 @@ def _bind(target, value, env):
     if isinstance(target, ast.Name):
         env[target.id] = value
     elif isinstance(target, ast.Attribute) and dotted(target) is not None:
-        env[dotted(target)] = value
+        base = None
+        if dotted(target) not in env:
+            try:
+                base = peval(target.value, env)
+            except (NotPure, Raised):
+                base = None
+        if isinstance(base, Model):
+            setattr(base, target.attr, value)          # attribute of an interpreted instance of a private class
+        else:
+            env[dotted(target)] = value
     elif isinstance(target, ast.Subscript) and isinstance(target.slice, ast.Slice):
         try:
             cont = peval(target.value, env)
@@ -491,6 +504,68 @@ def module_env(mod, funcs=None, names: Optional[Iterable[str]] = None) -> Dict[s
     return env
 
 
+_VM_DUNDERS = ("__repr__", "__str__", "__eq__", "__ne__", "__len__", "__bool__", "__iter__", "__contains__", "__getitem__", "__hash__")
+
+
+def make_vm_class(node: ast.ClassDef, funcs, env0):
+    """A python class standing for a *private* class of the analysed module: instances carry real attributes, methods are interpreted
+    from the AST with ``self`` bound to the instance (class-level constants are evaluated on demand).  Only base-less classes."""
+    if any(src(b) != "object" for b in node.bases) or node.keywords:
+        raise NotPure(f"class {node.name} has base classes: instances not modelled")
+    methods = {m.name: m for m in node.body if isinstance(m, ast.FunctionDef)}
+
+    def call_method(inst, fn, args, kw):
+        params = [a.arg for a in fn.args.args]
+        local = dict(env0)
+        local[params[0]] = inst
+        rest = params[1:]
+        if len(args) > len(rest):
+            raise Raised(TypeError(f"{fn.name}() takes {len(rest)} arguments"))
+        local.update(zip(rest, args))
+        defaults = fn.args.defaults
+        for i, pn in enumerate(rest[len(args):], start=len(args)):
+            if pn in kw:
+                local[pn] = kw[pn]
+                continue
+            di = len(defaults) - (len(rest) - i)
+            if di < 0:
+                raise Raised(TypeError(f"{fn.name}() missing argument {pn}"))
+            local[pn] = peval(defaults[di], dict(env0), funcs)
+        r = eval_block(fn.body, local, funcs=funcs)
+        if r.raised:
+            raise Raised(RuntimeError(r.raised))
+        is_gen = any(isinstance(n, (ast.Yield, ast.YieldFrom)) for n in walk_local(fn))
+        return list(r.out) if is_gen else r.value
+
+    def bound(inst, fn):
+        def _interp(*a, **kw):
+            return call_method(inst, fn, a, kw)
+        _interp.__name__ = "_interp"
+        _interp.method_name = fn.name
+        return _interp
+
+    def __getattr__(self, name):
+        if name in methods:
+            return bound(self, methods[name])
+        for st in node.body:
+            if isinstance(st, ast.Assign) and any(isinstance(t, ast.Name) and t.id == name for t in st.targets) and name != "__slots__":
+                return peval(st.value, dict(env0), funcs)
+            if isinstance(st, ast.AnnAssign) and isinstance(st.target, ast.Name) and st.target.id == name and st.value is not None:
+                return peval(st.value, dict(env0), funcs)
+        raise AttributeError(name)
+
+    def __init__(self, *a, **kw):
+        if "__init__" in methods:
+            call_method(self, methods["__init__"], a, kw)
+        elif a or kw:
+            raise TypeError(f"{node.name}() takes no arguments")
+    body = {"__getattr__": __getattr__, "__init__": __init__, "_vm_node": node}
+    for d in _VM_DUNDERS:
+        if d in methods:
+            body[d] = (lambda fn: (lambda self, *a: call_method(self, fn, a, {})))(methods[d])
+    return type(node.name, (Model,), body)
+
+
 class FollowModule(dict):
     """``funcs`` mapping that, besides the explicit models it is created with, resolves any other module-level function of
     ``mod`` by interpreting its AST (``interp``): the evaluator follows calls to sibling helpers instead of refusing them."""
@@ -509,6 +584,14 @@ class FollowModule(dict):
                 return st
         return None
 
+    def _class(self, name):
+        if not isinstance(name, str) or "." in name:
+            return None
+        for st in self._mod.tree.body:
+            if isinstance(st, ast.ClassDef) and st.name == name and not st.decorator_list and name.startswith("_"):
+                return st
+        return None
+
     def _const(self, name):
         """a module-level ``name = <expr>`` that the plain module environment could not evaluate (e.g. a table of module functions)"""
         if not isinstance(name, str) or "." in name or name in self._env0 or name in self._busy:
@@ -519,12 +602,16 @@ class FollowModule(dict):
             return None
 
     def __contains__(self, name):
-        return dict.__contains__(self, name) or self._func(name) is not None or self._const(name) is not None
+        return dict.__contains__(self, name) or self._func(name) is not None or self._class(name) is not None or self._const(name) is not None
 
     def __getitem__(self, name):
         if dict.__contains__(self, name):
             return dict.__getitem__(self, name)
         f = self._func(name)
+        if f is None and self._class(name) is not None:
+            cls = make_vm_class(self._class(name), self, self._env0)
+            dict.__setitem__(self, name, cls)
+            return cls
         if f is None:
             v = self._const(name)
             if v is None:
@@ -713,6 +800,13 @@ def eval_block(stmts: Sequence[ast.stmt], env: Dict[str, object], sink: Callable
                 else:
                     binop = ast.BinOp(left=ast.Constant(value=cur), op=st.op, right=ast.Constant(value=v))
                     env[key] = _pe(binop, env, funcs)
+            elif isinstance(st.target, ast.Attribute) and isinstance(_attr_base(st.target, env, funcs), Model):
+                base = _attr_base(st.target, env, funcs)
+                cur = getattr(base, st.target.attr)
+                if isinstance(cur, (list, bytearray, collections.deque)) and isinstance(st.op, ast.Add):
+                    cur.extend(v)
+                else:
+                    setattr(base, st.target.attr, _pe(ast.BinOp(left=ast.Constant(value=cur), op=st.op, right=ast.Constant(value=v)), env, funcs))
             elif isinstance(st.target, ast.Subscript):
                 cont = _pe(st.target.value, env, funcs)
                 k = _pe(st.target.slice, env, funcs) if not isinstance(st.target.slice, ast.Slice) else None
@@ -890,6 +984,13 @@ def _emit(res, kind, v):
         tgt.extend(_units(v))
     else:
         raise AnalysisError(f"block evaluation: unknown sink kind {kind}")
+
+
+def _attr_base(target, env, funcs):
+    try:
+        return peval(target.value, env, funcs)
+    except (NotPure, Raised):
+        return None
 
 
 def _is_local_list(expr, env, funcs) -> bool:
